@@ -480,6 +480,16 @@ def run_relay_check(work, prop, tier, replay=None):
                     hid = "relayconc-%s" % k["cid"]
                     fails.append(dict(hid=hid, sig=dict(inv="L_Conv", step="RelayConc", symptom=relayconc_check.SYMPTOM_NAME[sym]), rec=dict(i=-1)))
                     hist_by_id[hid] = dict(hid=hid, stage="RelayConc (harness l1m)", invariant="L_Conv", symptoms=k["symptoms"], scenario=k.get("scenario"))
+    iso = None
+    if prop == "C03" and not replay:
+        # the differential the property names: every two-group history with and without the other group's traffic
+        import iso_check
+        iso = iso_check.stage(work, tier, seed)
+        work.log("differential: %d two-group histories, %d steps compared with the run without the other group, %d differing" % (
+            iso["histories"], iso["compared_steps"], len(iso["fails"])))
+        for f in iso["fails"]:
+            fails.append(dict(hid=f["hid"], sig=f["sig"], rec=f["rec"]))
+            hist_by_id[f["hid"]] = dict(f["history"], differential=f["rec"])
     workers_rows = None
     if prop == "C07" and not replay:
         wf, workers_rows = frame_workers(work, tier)
@@ -546,6 +556,9 @@ def run_relay_check(work, prop, tier, replay=None):
         coverage["traces_validated_against_impl"] += wire["histories"]
     if workers_rows:
         coverage["frame_workers"] = workers_rows
+    if iso:
+        coverage["noninterference_differential"] = dict(histories=iso["histories"], steps_compared=iso["compared_steps"], differing=len(iso["fails"]))
+        coverage["traces_validated_against_impl"] += 3 * iso["histories"]
     if rconc:
         coverage["lock_grain"] = dict(exhaustive=rconc["model"], witnesses_found_by_tlc=rconc["witnesses"], real_runs=rconc["stats"],
                                       runs_the_specification_does_not_explain=rconc["lost"][:20],
